@@ -41,3 +41,13 @@ def c16_constant_coefficient_not_indexable(w):
             and w.get('exc_type') == 'TypeError' and 'not subscriptable' in str(w.get('error'))
             and bool(w.get('result_blades_with_a_plain_number_coefficient'))
             and len(w.get('result_blades_with_a_plain_number_coefficient')) < len(w.get('result_blades') or []))
+
+
+def c11_multivector_constant_truncated(w):
+    """alg.register(f) where f uses a MultiVector that is not an argument (a constant of the program): the tape recorder writes
+    str(constant) into the generated source, and MultiVector.__str__ prints floats with 3 significant digits - the compiled function
+    computes with 0.123 instead of 0.123456789 (a non-scalar constant does not even compile)."""
+    prog = w.get('program') or {}
+    return (w.get('kind') == 'registered function returns a different value'
+            and w.get('mode') == 'numeric'
+            and 'mv-constant' in (prog.get('feats') or []))
